@@ -323,5 +323,16 @@ class SourceTree:
         for st in self._iter_body_stmts(fi.node):
             if isinstance(st, (ast.For, ast.While, ast.AsyncFor)):
                 loops.append(st)
+        # a generator expression consumed by next(...) is a search loop (`for x in it: if c: r = e; break`): it is numbered with
+        # the loops, in source order, so that it finds the invariant a scan loop at the same place would have found
+        stack = list(getattr(fi.node, "body", []))
+        while stack:
+            n = stack.pop()
+            if isinstance(n, (ast.FunctionDef, ast.AsyncFunctionDef, ast.ClassDef, ast.Lambda)):
+                continue
+            if (isinstance(n, ast.Call) and isinstance(n.func, ast.Name) and n.func.id == "next" and n.args
+                    and isinstance(n.args[0], ast.GeneratorExp)):
+                loops.append(n.args[0])
+            stack.extend(ast.iter_child_nodes(n))
         loops.sort(key=lambda n: (n.lineno, n.col_offset))
         return loops
